@@ -79,6 +79,10 @@ CYCLE_SCRIPTS['elim3'] = ('(declare-const x Int)'
 CYCLE_SCRIPTS['defconst'] = ('(declare-const a Int)'
                              '(define-fun z () Int (+ a 1))'
                              '(assert (> (+ a 1) 0))(check-sat)')
+# a let binding that shadows a symbol of its own term
+CYCLE_SCRIPTS['letshadow'] = ('(declare-const x Int)(declare-fun f (Int) Int)'
+                              '(assert (let ((x (+ x 1))) (> (f x) 0)))'
+                              '(check-sat)')
 DEPTH3 = ['elim3', 'eq0', 'recfun', 'defconst']   # small: also 3-step chains
 
 
@@ -288,6 +292,31 @@ def known_cycle_witness():
     return r['exc']['msg'] if r['exc'] else None
 
 
+def _nest(op, leaf, other, depth):
+    t = leaf
+    for _ in range(depth):
+        t = f'({op} {t} {other})'
+    return t
+
+
+# deeply nested terms over a leaf whose sort ddSMT cannot infer, or can
+FUEL_DEEP = [
+    ('deep_plus_unknown', '(declare-fun f (Int) Int)(declare-const x Int)'
+     '(assert (> ' + _nest('+', '(f x)', '1', 26) + ' 0))'),
+    ('deep_times_known', '(declare-const x Int)(assert (> '
+     + _nest('*', 'x', '2', 26) + ' 0))'),
+    ('deep_bvadd_unknown', '(declare-fun g ((_ BitVec 4)) (_ BitVec 4))'
+     '(declare-const v (_ BitVec 4))(assert (= '
+     + _nest('bvadd', '(g v)', 'v', 22) + ' v))'),
+    ('deep_ite', '(declare-const p Bool)(declare-fun f (Int) Int)'
+     '(declare-const x Int)(assert (> '
+     + _nest('ite p', '(f x)', '0', 22) + ' 0))'),
+    ('deep_let', '(declare-const x Int)(assert '
+     + ''.join(f'(let ((v{k} (+ x {k}))) ' for k in range(14))
+     + '(> v13 v0)' + ')' * 14 + ')'),
+]
+
+
 def run_fuel():
     """Step bound for every mutator call on the corpus."""
     import ddsmt.nodes as N
@@ -307,16 +336,28 @@ def run_fuel():
 
     limit = [10 ** 9]
     N.Node.__init__ = counting_init
+    # sort inference recurses without building nodes: count its calls too
+    real_aux = smtlib._get_sort_aux
+
+    def counting_aux(node):
+        count[0] += 1
+        if count[0] > limit[0]:
+            raise RuntimeError('step bound exceeded')
+        return real_aux(node)
+
+    smtlib._get_sort_aux = counting_aux
     bad = None
     calls = 0
     worst = (0, '')
     try:
-        for name, text in list(CYCLE_SCRIPTS.items()) + \
+        for name, text in list(CYCLE_SCRIPTS.items()) + FUEL_DEEP + \
                 [(f'corpus{k}', t) for k, t in enumerate(P.CORPUS)]:
             exprs = list(nodeio.parse_smtlib(text))
             size = nodes.count_nodes(exprs)
             smtlib.collect_information(exprs)
             for node in list(nodes.dfs(exprs)):
+                if bad is not None:
+                    break
                 for cls, m in P.all_mutators():
                     count[0] = 0
                     limit[0] = 64 * (size + 1) ** 2
@@ -360,6 +401,7 @@ def run_fuel():
                                f'{cls} needs more than 5 s on {name}')
     finally:
         N.Node.__init__ = real_init
+        smtlib._get_sort_aux = real_aux
     return {'status': 'VIOLATED' if bad else 'CONFIRMED',
             'cex': bad[0] if bad else None,
             'exc': {'type': 'Violation', 'msg': bad[1]} if bad else None,
@@ -385,6 +427,17 @@ def chain_once(vec, strategy, name, V):
         try:
             SC.run_strategy(env, strategy)
         except SC.Runaway:
+            # cut off after 40 accepted simplifications: fine while the
+            # input shrinks, but an input that keeps *growing* under accepted
+            # simplifications is a run that never ends
+            n0 = len(env.orig.split(' '))
+            sizes = [len(w.split(' ')) for w in env.writes]
+            if sizes and sizes[-1] >= 2 * n0 and \
+                    all(b >= a for a, b in zip(sizes[-10:], sizes[-9:])):
+                return (f'{strategy}: after {len(sizes)} accepted '
+                        f'simplifications the input has grown from {n0} to '
+                        f'{sizes[-1]} tokens and is still growing: '
+                        f'{env.writes[-1][:300]!r}'), d.read
             return 'skip', d.read
     finally:
         env.restore()
